@@ -87,6 +87,14 @@ def _run_unit(job):
     return out
 
 
+def _kf_match(f, label):
+    import re
+    if f.get("obligation") == label:
+        return True
+    rx = f.get("obligation_regex")
+    return bool(rx and re.fullmatch(rx, label))
+
+
 def load_known(prop):
     p = os.path.join(ROOT, "known_findings.json")
     if not os.path.exists(p):
@@ -240,7 +248,7 @@ def main(argv=None):
                         break
                     confirmed, info, used = False, inf, r
             r0 = used or g["refuted"][0]
-            kf = next((f for f in known if f["obligation"] == label), None)
+            kf = next((f for f in known if _kf_match(f, label)), None)
             replay_path = os.path.join("replays", f"{prop}-{hashlib.sha1(label.encode()).hexdigest()[:10]}.json")
             rec = {"property": prop, "obligation": label, "unit": g["unit"], "model": r0["model"], "path": r0["path"],
                    "backend": r0["backend"], "native_replay": info, "confirmed_natively": bool(confirmed),
@@ -259,7 +267,7 @@ def main(argv=None):
                 undecided.append((label, "refuted but neither replayed natively nor in the proved baseline", r0))
         elif g["undecided"]:
             r0 = g["undecided"][0]
-            kf = next((f for f in known if f["obligation"] == label), None)
+            kf = next((f for f in known if _kf_match(f, label)), None)
             if kf is not None and kf.get("undecided_ok"):
                 known_hits.append((kf, {"obligation": label}))
                 continue
@@ -300,7 +308,7 @@ def main(argv=None):
             checker_errors.append(f"bounded {r['name']}: {r['error']}")
         b_evals += r.get("evaluations", 0)
         for v in r.get("violations", []):
-            kf = next((f for f in known if f["obligation"] == v["obligation"]), None)
+            kf = next((f for f in known if _kf_match(f, v["obligation"])), None)
             if kf is not None:
                 known_hits.append((kf, v))
                 continue
@@ -308,7 +316,7 @@ def main(argv=None):
             json.dump({"property": prop, **v, "replay_cmd": f"./check --replay {replay_path}"}, open(os.path.join(ROOT, replay_path), "w"), indent=1, default=str)
             b_viol.append((v["obligation"], replay_path, ""))
 
-    kf_labels = {kf["obligation"] for kf, _ in known_hits}
+    kf_labels = {rec.get("obligation") or kf.get("obligation") for kf, rec in known_hits}
     # obligations of listed known findings are reported separately, never counted as discharged
     n_ob = sum(g["instances"] for l, g in ob.items() if l not in kf_labels)
     n_dis = sum(g["proved"] for l, g in ob.items() if l not in kf_labels)
@@ -319,7 +327,7 @@ def main(argv=None):
     # ---------------- print
     seen_kf = set()
     for kf, rec in known_hits:
-        key = kf["obligation"]
+        key = kf.get("obligation") or kf.get("obligation_regex")
         if key in seen_kf:
             continue
         seen_kf.add(key)
